@@ -250,18 +250,18 @@ func main() {
 	}
 	if !budgetGiven {
 		// wall budget per exploration (one scenario), scaled so that the whole check stays within about
-		// 12 minutes (quick) / 40 minutes (thorough) of 16-core time per unit share: a level that does not finish stops the scenario at the
+		// 12 minutes (quick) / 15 minutes (thorough) of 16-core time per unit share: a level that does not finish stops the scenario at the
 		// last completed preemption bound; reported as exhaustive:false, never as a failure
 		total := 12 * time.Minute
 		if tier == "thorough" {
-			total = 40 * time.Minute
+			total = 15 * time.Minute
 		}
 		per := total * time.Duration(par) / time.Duration(len(jobs))
 		if floor := 90 * time.Second; tier != "thorough" && per < floor {
 			per = floor // no quick unit is cut short below a minute and a half
 		}
-		if per < 30*time.Second {
-			per = 30 * time.Second
+		if per < 20*time.Second {
+			per = 20 * time.Second
 		}
 		if per > 8*time.Minute {
 			per = 8 * time.Minute
